@@ -135,6 +135,26 @@ class Leg(object):
                                % (k, v, case["how"], k, got, want), sig={"kind": "wrap", "how": case["how"]})
             if f[k] is not f.attributes[k] and list(f[k]) != want:
                 return Failure("Feature[%r] = %r differs from attributes[%r]" % (k, f[k], k), sig={"kind": "wrap"})
+        if case["from_db"] and case["items"]:
+            # the same values handed over in a plain dict to the Feature constructor, stored, and read back from the
+            # database (also after update() on an existing one): sequences of strings again
+            from gffutils.feature import Feature
+
+            raw = dict((k, tuple(v["tuple"]) if isinstance(v, dict) else v) for k, v in case["items"])
+            for route in ("create_db", "update"):
+                made = Feature(seqid="c", source="s", featuretype="gene", start=1, end=2, attributes=dict(raw), id="row")
+                if route == "create_db":
+                    db2 = gffutils.create_db([made], ":memory:", id_spec=lambda x: "row")
+                else:
+                    db2 = gffutils.create_db(LINE + "\n", ":memory:", from_string=True)
+                    db2.update([made], id_spec=lambda x: "row", make_backup=False)
+                back = db2["row"]
+                for k, v in case["items"]:
+                    got = back.attributes[k]
+                    want = _expected_list(v)
+                    if isinstance(got, str) or not isinstance(got, (list, tuple)) or list(got) != want:
+                        return Failure("a Feature constructed with attributes[%r] = %r, stored (%s) and read back has %r (expected the sequence %r)"
+                                       % (k, raw[k], route, got, want), sig={"kind": "wrap", "how": "constructed+" + route})
         if base == "attrs":
             for k in ("ID", "Name"):
                 if k not in dict(case["items"]) and list(f.attributes[k]) != {"ID": ["base"], "Name": ["n1", "n2"]}[k]:
